@@ -259,6 +259,21 @@ fn change_text(c: &EntryChange) -> String {
     format!("event change {} {}", hex::encode(c.apath.as_bytes()), k)
 }
 
+thread_local! {
+    /// Called with the apath of every change event of a backup running on this thread: lets a scenario alter
+    /// the SOURCE while it is being backed up (a file shrinking, growing or vanishing between the listing of
+    /// its directory and its own read).
+    static CHANGE_HOOK: std::cell::RefCell<Option<Box<dyn Fn(&str)>>> = const { std::cell::RefCell::new(None) };
+}
+
+/// Run `f` with `hook` installed as the change hook of backups started from this thread.
+pub fn with_change_hook<R>(hook: Box<dyn Fn(&str)>, f: impl FnOnce() -> R) -> R {
+    CHANGE_HOOK.with(|h| *h.borrow_mut() = Some(hook));
+    let r = f();
+    CHANGE_HOOK.with(|h| *h.borrow_mut() = None);
+    r
+}
+
 pub fn real_backup(archive_dir: &Path, source: &Path, p: &BackupParams, cfg: IceptConfig) -> RunResult {
     let ic = Icept::new(cfg);
     let monitor = TestMonitor::arc();
@@ -277,6 +292,11 @@ pub fn real_backup(archive_dir: &Path, source: &Path, p: &BackupParams, cfg: Ice
                 owner: p.owner,
                 change_callback: Some(Box::new(move |c: &EntryChange| {
                     ch2.lock().unwrap().push(change_text(c));
+                    CHANGE_HOOK.with(|h| {
+                        if let Some(hook) = h.borrow().as_ref() {
+                            hook(&c.apath.to_string());
+                        }
+                    });
                     Ok(())
                 })),
             };
